@@ -242,8 +242,14 @@ async def run(ctx) -> None:
         lost_keys = [x.split(" ", 1)[0] for x in lost]
         if lost or new or chg:
             kind = "lost" if lost else ("added" if new else "changed")
-            if not new and (lost or chg) and all(merged_fragment(d) for d in lost_keys + chg):
-                kind = "array_fragment_merge"
+            def src_code(d):
+                parts = A[1][d].split(" # ")[0].split()
+                return (next((x for x in parts[2:6] if x[2:3] == ":" and x[:2] != "--"), None),
+                        next((c for c in ("000A", "22C9") if c in parts[5:8]), None), A[1][d][4:6])
+
+            re_ctx = {src_code(d) for d in chg if merged_fragment(d)}  # fragments that the restore puts into another context ...
+            if not new and (lost or chg) and all(merged_fragment(d) or (src_code(d) in re_ctx and src_code(d)[1]) for d in lost_keys + chg):
+                kind = "array_fragment_merge"  # ... where they displace the packet that was there
             if kind == "lost" and reclassed:
                 kind = "lost_rejected_by_eavesdropped_class"
             if kind == "changed" and all(A[1][d].split(" # ")[0] == B[1][d].split(" # ")[0] for d in chg):  # (other codes)
